@@ -32,6 +32,7 @@ def guard_create(F, R):
     dom(R, f, lock, sp, 'state_file.try_lock<set_permission', 'no file becomes readable before the liveness lock is held: a monitor that can read an unlocked state file says dead')
     for c in lock:
         const_arg(R, f, c, 1, {'Write'}, 'lock-type', 'monitors test for a write lock')
+        lock_kept(F, R, f, c, 'liveness-lock')
     ctx = [c for c in sp if 'context_file' in f.varnames(c.args[0])]
     others = [c for c in sp if 'context_file' not in f.varnames(c.args[0])]
     wv = [c for c in f.calls(r'File::write_val$') if 'context_file' in f.varnames(c.args[0])]
@@ -99,6 +100,24 @@ def monitor_state(F, R):
     R.exact('Starting verdict sites', len(starting), 1)
 
 
+def lock_kept(F, R, f, c, what):
+    """The guard returned by try_lock `c` is leaked (kept for the lifetime of the file descriptor): a `leak` call consumes it and no
+    drop of a FileLockGuard rooted at the call lies on a normal (non-unwind) path.  Dropping the guard issues F_UNLCK at once."""
+    leaks = [l for l in f.calls(r'file_descriptor::FileLockGuard::<.*>::leak$|file_descriptor::FileLockGuard::leak$')
+             if f.prov_operand(l.args[0]).root[0] == 'call' and f.prov_operand(l.args[0]).root[1].key() == c.key()]
+    reach = set(f.reachable(0))
+    drops = []
+    for b in range(len(f.blocks)):
+        t = f.blocks[b]['t']
+        if t[0] != 'drop' or (reach is not None and b not in reach):
+            continue
+        pr = f.prov_place(t[1])
+        if pr.root[0] == 'call' and pr.root[1].key() == c.key() and 'as:Some' in pr.path:
+            drops.append(f.term_site(b))
+    R.ob('PAIR', 'PAIR::%s::%s-guard-leaked-not-dropped' % (fnkey(f), what), bool(leaks) and not drops,
+         'the %s guard of try_lock is consumed by leak() (%d site(s)) and never dropped (%d drop(s)%s): dropping it unlocks the file immediately and a second process would win the same lock' % (what, len(leaks), len(drops), ''.join(' @' + d.where for d in drops)), c.where, f)
+
+
 def cleaner_new(F, R):
     f = F.fn(PS + 'ProcessCleaner::new')
     st = f.calls(r'ProcessMonitor::state$')
@@ -111,6 +130,7 @@ def cleaner_new(F, R):
     for c in tl:
         R.ob('FLOW', 'FLOW::%s::try_lock-on-owner-lock-file' % fnkey(f), 'owner_lock_file' in f.varnames(c.args[0]), 'try_lock receiver %s' % f.varnames(c.args[0]), c.where, f)
         const_arg(R, f, c, 1, {'Write'}, 'owner-lock-type')
+        lock_kept(F, R, f, c, 'owner-lock')
         # only the winner acquires ownership (which makes StateFiles::drop delete the files)
         for a in acq:
             ok = False
